@@ -24,6 +24,75 @@ type World struct {
 	Ctx    context.Context
 	Cancel context.CancelFunc
 	Clock  *env.Clock
+	// UDP is set when the library's own transport talks to the environment
+	// over a loopback socket (newWorldUDP).
+	UDP *env.UDPFront
+	// Runaway (UDP worlds): the library kept retrying without end and was
+	// stopped by cancelling its context.
+	Runaway string
+	sleeps  int
+}
+
+// udpAttemptTimeout is the per-attempt timeout of worlds running over a real
+// socket: long enough that a loopback reply is never late on a loaded machine.
+const udpAttemptTimeout = 250 * time.Millisecond
+
+// newWorldUDP is newWorld with the library's real transport (DialV2) in front
+// of the same environment, served on a loopback UDP socket. Back-off waits are
+// skipped (seam), per-attempt timeouts are real.
+func newWorldUDP(cfg ref.Config, ch *env.Chooser) (*World, error) {
+	w := &World{BMC: ref.NewBMC(cfg)}
+	w.T = &env.Transport{BMC: w.BMC, Ch: ch, Timeout: time.Second}
+	f, err := w.T.ListenUDP()
+	if err != nil {
+		return nil, err
+	}
+	w.UDP = f
+	w.Ctx, w.Cancel = newCtx()
+	backoff.VerifSleep = func(ctx context.Context, d time.Duration) bool {
+		// back-off waits are skipped; a retry loop that neither ends nor reaches
+		// the socket is stopped by ending the caller's context
+		if w.sleeps++; w.sleeps > 60 {
+			if w.Runaway == "" {
+				w.Runaway = "more than 60 back-off rounds within one operation"
+			}
+			w.Cancel()
+		}
+		return true
+	}
+	f.MaxAttempts = 30
+	f.OnRunaway = func() {
+		if w.Runaway == "" {
+			w.Runaway = "more than 30 datagrams within one operation"
+		}
+		w.Cancel()
+	}
+	conn, err := bmc.DialV2(f.Addr(), bmc.WithTimeout(udpAttemptTimeout))
+	if err != nil {
+		f.Close()
+		return nil, err
+	}
+	w.Conn = conn
+	env.InstallRand(1)
+	return w, nil
+}
+
+// Close releases the sockets of a UDP world (no-op otherwise).
+func (w *World) Close() {
+	if w.UDP != nil {
+		w.Conn.Close()
+		w.UDP.Close()
+	}
+}
+
+// beginOp marks the start of a caller-level operation.
+func (w *World) beginOp() {
+	if w.UDP != nil {
+		w.sleeps = 0
+		w.UDP.Locked(w.T.BeginOp)
+		return
+	}
+	w.T.BeginOp()
 }
 
 func pattern(n int, start, step byte) []byte {
@@ -194,6 +263,16 @@ func harnessPanic(stack string) bool {
 		}
 	}
 	return false
+}
+
+// LibraryPanic classifies the stack of a panic that escaped every guard: if
+// the first non-runtime frame below the panic is library code it returns the
+// site (the panic is the library's, reached through an unguarded call).
+func LibraryPanic(stack string) (site string, ok bool) {
+	if harnessPanic(stack) || !strings.Contains(stack, "github.com/gebn/bmc") {
+		return "", false
+	}
+	return panicSite(stack), true
 }
 
 // newCtx returns a harness-owned caller context (marked so the transport can
